@@ -118,7 +118,12 @@ func (h *hostCounter) ServeHTTP(w http.ResponseWriter, r *http.Request) {
 type releases struct {
 	mu sync.Mutex
 	m  map[string]chan struct{}
+	// ended: ids of held streams whose handler at the stub upstream has returned (released by the harness, or the
+	// gateway ended the upstream request) - the upstream side of "this request is finished"
+	ended sync.Map
 }
+
+func (r *releases) isEnded(id string) bool { _, ok := r.ended.Load(id); return ok }
 
 func (r *releases) ch(id string) chan struct{} {
 	r.mu.Lock()
@@ -161,6 +166,7 @@ func responder(rel *releases) bed.Responder {
 			w.WriteHeader(500)
 			io.WriteString(w, "boom")
 		case "hold", "cancel":
+			defer rel.ended.Store(s.ID, true)
 			w.Header().Set("Content-Type", "text/plain")
 			w.WriteHeader(200)
 			io.WriteString(w, "first\n")
@@ -280,8 +286,12 @@ type batch struct {
 	rel           *releases
 	M             int32
 	violated      bool
-	log           []string
-	mu            sync.Mutex
+	// live: streams the harness holds and believes unfinished (admitted, not yet released by it). Whether they really
+	// are is OBSERVED at both sides before an over-limit verdict: the client has not seen the end and the stub's handler
+	// has not returned. The gateway may end a request for reasons of its own; the slot it gives back is then free.
+	live map[string]*pending
+	log  []string
+	mu   sync.Mutex
 }
 
 func (b *batch) note(f string, a ...interface{}) {
@@ -506,6 +516,12 @@ func (b *batch) holdOn(resource string) (*pending, bool, bool) {
 		return p, false, true
 	}
 	b.note("stream %s admitted (held)", p.id)
+	b.mu.Lock()
+	if b.live == nil {
+		b.live = map[string]*pending{}
+	}
+	b.live[p.id] = p
+	b.mu.Unlock()
 	return p, true, true
 }
 
@@ -513,6 +529,9 @@ func (b *batch) finish(p *pending) (outcome, bool) {
 	select {
 	case o := <-p.done:
 		o.forwarded = b.seen(o.id)
+		b.mu.Lock()
+		delete(b.live, p.id)
+		b.mu.Unlock()
 		return o, true
 	case <-time.After(watchdog):
 		return outcome{}, false
@@ -576,6 +595,11 @@ func (b *batch) probe(limit int, held int, requireFill bool, sigTail string, wit
 		b.violated = true
 		b.env.r.Violation("C05/e2e/answered-429-but-forwarded/resource="+res,
 			fmt.Sprintf("limit %d and %d streams in flight: one more request on resource %q was answered 429 and nevertheless forwarded to the upstream", limit, limit, res), witness())
+	} else if gone := b.endedMeanwhile(); (o.forwarded || o.status != 429) && len(gone) > 0 {
+		// a stream the script still counted as in flight has in fact been ended by the gateway (seen at the client or at the
+		// stub): its slot was legitimately free, the admission is no violation. Whether the gateway may end it is not C05's question.
+		b.note("held stream(s) %v were ended by the gateway meanwhile: the admission of %s is not judged", gone, o.id)
+		b.env.r.Count("e2e_probe_moot(held_stream_ended_by_the_gateway)", 1)
 	} else if o.forwarded || o.status != 429 {
 		b.violated = true
 		b.env.r.Violation("C05/e2e/admitted-over-limit/"+sigTail,
@@ -584,6 +608,49 @@ func (b *batch) probe(limit int, held int, requireFill bool, sigTail string, wit
 		b.env.r.Count("e2e_quiescence_429_observed", 1)
 	}
 	return mine, true
+}
+
+// endedMeanwhile lists the held streams whose end has been observed at the client or at the stub although the harness has not
+// released them.
+func (b *batch) endedMeanwhile() []string {
+	b.mu.Lock()
+	defer b.mu.Unlock()
+	var out []string
+	for id, p := range b.live {
+		if len(p.done) > 0 || b.rel.isEnded(id) {
+			out = append(out, id)
+		}
+	}
+	return out
+}
+
+// settleHeld waits until the gateway-side in-flight count of the host equals the number of held streams whose end the
+// client has not seen, consumes the ended ones and returns the streams that are really still in flight.
+func (b *batch) settleHeld(held []*pending) ([]*pending, bool) {
+	c := b.env.hc.ctr(b.host)
+	liveN := func() int64 {
+		n := int64(0)
+		for _, p := range held {
+			if len(p.done) == 0 {
+				n++
+			}
+		}
+		return n
+	}
+	if !vkit.WaitFor(watchdog, func() bool { return atomic.LoadInt64(c) == liveN() }) {
+		return nil, false
+	}
+	var live []*pending
+	for _, p := range held {
+		if len(p.done) > 0 {
+			o, _ := b.finish(p)
+			b.note("held stream %s was ended by the gateway (status %d err=%v): its slot is free again", p.id, o.status, o.err != nil)
+			b.env.r.Count("e2e_held_streams_ended_by_the_gateway", 1)
+			continue
+		}
+		live = append(live, p)
+	}
+	return live, true
 }
 
 func (b *batch) releaseAll(ps []*pending) bool {
@@ -969,10 +1036,13 @@ func (b *batch) endpointRemoved(g *vkit.Rand, witness func() map[string]interfac
 		b.note("stream %s on the removed endpoint ended: status %d err=%v", p.id, o.status, o.err != nil)
 		r.Count("e2e_streams_ended_by_endpoint_removal", 1)
 	}
-	if !b.inflightIs(int64(H)) {
+	// the streams on the main endpoint are expected to go on; what is really still in flight is observed, not assumed
+	held, ok := b.settleHeld(held)
+	if !ok {
 		r.Inconclusive("watchdog: handlers of the torn-down streams did not return")
 		return
 	}
+	H = len(held)
 	mine, ok := b.probe(int(b.M), H, true, "ending=endpoint-removed", witness)
 	if !ok {
 		return
